@@ -288,6 +288,11 @@ def edit_ops(rng, b, s, bias=None):
         fop = next((o for o in b.ops if o["op"] == "func" and o["out"] == b.info["main_f"]), None)
         if fop and "L" in (fop.get("params") or {}):
             ops.append({"op": "setparam", "f": b.info["main_f"], "attr": "L", "scale": float("%.2g" % rng.uniform(0.8, 0.99))})
+        elif fop and fop["cls"] == "ConvexIndicatorFunction" and "D" in (fop.get("params") or {}):
+            # the diameter condition disappears from the class conditions
+            ops.append({"op": "setparam", "f": b.info["main_f"], "attr": "D", "value": "inf"})
+        elif fop and fop["cls"] == "ConvexSupportFunction" and "M" in (fop.get("params") or {}):
+            ops.append({"op": "setparam", "f": b.info["main_f"], "attr": "M", "value": "inf"})
     elif kind == "remove_cons":
         red = [o["out"] for o in b.ops if o["op"] == "cons" and o.get("target") == b.P and o.get("how") != "initial"]
         if red:
